@@ -223,6 +223,11 @@ pub fn generate_chains(seed: u64, n: usize, proxy_focus: bool, sink: &mut Sink) 
             }
         }
         let use_proxy = proxy_focus || rng.chance(1, 3);
+        // sometimes https targets are proxied too: the hop that reaches one must open a CONNECT tunnel
+        // for THAT hop's origin (the scripted proxy answers 200, TLS then fails: the chain ends there)
+        let https_proxy = use_proxy && rng.chance(1, 5);
+        let tunnel_at: Option<usize> = if https_proxy { urls.iter().position(|u| u.starts_with("https://")) } else { None };
+        let expect_hops = tunnel_at.map_or(nhops, |i| i + 1);
         let case = SendCase {
             method: rng.pick(&["POST", "PUT", "GET", "DELETE"]).to_string(),
             url: start,
@@ -230,12 +235,12 @@ pub fn generate_chains(seed: u64, n: usize, proxy_focus: bool, sink: &mut Sink) 
             max_redirections: 5,
             max_headers: 100,
             compress: rng.chance(1, 2),
-            proxy: ProxyCfg { http: if use_proxy { Some("http://proxy.test:3128".into()) } else { None }, https: None, no_proxy: if use_proxy { vec!["noproxy.test".into()] } else { vec![] } },
+            proxy: ProxyCfg { http: if use_proxy { Some("http://proxy.test:3128".into()) } else { None }, https: if https_proxy { Some("http://proxy.test:3128".into()) } else { None }, no_proxy: if use_proxy { vec!["noproxy.test".into()] } else { vec![] } },
             params: vec![],
             pre: gen_steps(&mut rng, 3, false),
             body,
             post: gen_steps(&mut rng, 1, false),
-            hops: hops.iter().map(|(st, loc)| (vec![Seg::Data(response(*st, loc.as_deref()))], loc.clone())).collect(),
+            hops: hops.iter().enumerate().map(|(i, (st, loc))| if tunnel_at == Some(i) { (vec![Seg::Data(b"HTTP/1.1 200 Connection established\r\n\r\n".to_vec())], None) } else { (vec![Seg::Data(response(*st, loc.as_deref()))], loc.clone()) }).collect(),
         };
         let obs = run_send(&case);
         let tag = body_tag(&case.body);
@@ -243,8 +248,8 @@ pub fn generate_chains(seed: u64, n: usize, proxy_focus: bool, sink: &mut Sink) 
             if let Some(e) = &obs.prepare_error {
                 return Err((format!("prepare-{}", tag), e.clone()));
             }
-            if obs.hops.len() != nhops {
-                return Err((format!("hop-count-{}", tag), format!("{} connections, expected {}; final {:?}", obs.hops.len(), nhops, obs.fin)));
+            if obs.hops.len() != expect_hops {
+                return Err((format!("hop-count-{}", tag), format!("{} connections, expected {}; final {:?}", obs.hops.len(), expect_hops, obs.fin)));
             }
             let mut first_body: Option<Vec<u8>> = None;
             for (i, h) in obs.hops.iter().enumerate() {
@@ -253,7 +258,7 @@ pub fn generate_chains(seed: u64, n: usize, proxy_focus: bool, sink: &mut Sink) 
                 // proxy choice re-evaluated for this hop's URL; connection target belongs to it
                 let (eh, ep) = if via_proxy { ("proxy.test".to_string(), 3128) } else { (u.host_str().unwrap().trim_matches(|c| c == '[' || c == ']').to_string(), u.port_or_known_default().unwrap()) };
                 let dh = h.dial.host.trim_matches(|c| c == '[' || c == ']').to_string();
-                if dh != eh || h.dial.port != ep {
+                if tunnel_at != Some(i) && (dh != eh || h.dial.port != ep) {
                     return Err((format!("hop-peer-{}", tag), format!("hop {} ({}) dialled {}:{}, expected {}:{}", i, urls[i], h.dial.host, h.dial.port, eh, ep)));
                 }
                 let (host_header, target) = if via_proxy {
@@ -261,6 +266,17 @@ pub fn generate_chains(seed: u64, n: usize, proxy_focus: bool, sink: &mut Sink) 
                 } else {
                     (host_header_of(&u), origin_form(&u))
                 };
+                if tunnel_at == Some(i) {
+                    // the CONNECT names this hop's origin; nothing of the request precedes the tunnel
+                    let want = format!("CONNECT {}:{} HTTP/1.1\r\n", u.host_str().unwrap(), u.port_or_known_default().unwrap());
+                    if !h.written.starts_with(want.as_bytes()) {
+                        return Err((format!("tunnel-target-{}", tag), format!("hop {} ({}) wrote {:?}", i, urls[i], String::from_utf8_lossy(&h.written[..h.written.len().min(60)]))));
+                    }
+                    if dh != "proxy.test" || h.dial.port != 3128 {
+                        return Err((format!("hop-peer-{}", tag), format!("tunnel hop {} dialled {}:{}", i, h.dial.host, h.dial.port)));
+                    }
+                    continue;
+                }
                 let hop_tag = format!("{}-hop{}", tag, if i == 0 { "0" } else { ">=1" });
                 check_request(&case, &h.written, &u, &host_header, &target, &hop_tag, i == 0)?;
                 let pr = spec::parse_request(&h.written).unwrap();
